@@ -62,10 +62,16 @@ Definition sscanf_d (s : bytes) : option Z :=
       else (if Z.leb v 9223372036854775807 then Some v else None)
   end.
 
-(* GetObject's decoding of an inflated file: header up to the first NUL (or
-   the end), "<kind> <size>", and the rest must have exactly <size> bytes *)
+(* GetObject's decoding of an inflated file: header up to the first NUL (or,
+   without one, up to the last byte but one), "<kind> <size>", and the rest
+   must have exactly <size> bytes *)
 Definition parse_payload (p : bytes) : option (kind * bytes) :=
-  let '(hdr, rest) := split1 c_nul p in
+  let '(hdr0, rest) := split1 c_nul p in
+  (* ReadNullTerminatedString reads byte by byte and stops at io.EOF BEFORE
+     keeping the byte delivered with it: the zlib reader hands over the last
+     byte of the stream together with io.EOF, so a header that runs to the
+     end of the file loses its final byte *)
+  let hdr := match rest with Some _ => hdr0 | None => removelast hdr0 end in
   let data := match rest with Some d => d | None => [] end in
   match split1 c_sp hdr with
   | (ty, Some sz) =>
